@@ -67,7 +67,7 @@ def main(seed=0):
     b3 = copy.deepcopy(h)
     sends = [ev for ev in b3 if ev.get('e') == 'call' and ev['op'] == 'send']
     sends[0]['m'], sends[1]['m'] = sends[1]['m'], sends[0]['m']   # order of one sender swapped
-    rej = dict(core.validate_batch(ctx, 'PortTrace', [h, b1, b2, b3]))
+    rej = dict(core.validate_batch(ctx, 'PortTrace', [h, b1, b2, b3], extra_cfg='CONSTANT WeakPoll = TRUE\n'))
     expect('PortTrace accepts the recorded history', 0 not in rej)
     expect('PortTrace rejects a wrong received message', 1 in rej)
     expect('PortTrace rejects a history with a missing call', 2 in rej)
